@@ -13,6 +13,11 @@ def thresholds(terms, var):
     out = set()
     for t in terms:
         for u in subterms(t):
+            if u[0] == 'call' and u[1] == 'bitlen' and var in subterms(u[2]):
+                # comparisons on the bit length change truth only at powers of two of the operand
+                dd, c = to_lin(u[2])
+                if set(dd.keys()) == {var} and dd[var] == 1:
+                    for k in range(0, 65): out.update([(1 << k) - c - 1, (1 << k) - c, (1 << k) - c + 1])
             if u[0] in ('eq', 'lt', 'le'):
                 d = sub(u[1], u[2])
                 dd, c = to_lin(d)
